@@ -33,7 +33,11 @@ type LoggerWrapper struct {
 // It implements the io.Writer interface, allowing LoggerWrapper to be
 // used anywhere an io.Writer is expected.
 func (m *LoggerWrapper) Write(b []byte) (n int, err error) {
-	m.logger.Write(b)
+	l := m.logger
+	if l == nil { // no live configuration
+		l = defaultLogger
+	}
+	l.Write(b)
 	return len(b), nil
 }
 
